@@ -649,7 +649,7 @@ func (v *VC) genBlock(b *ssa.BasicBlock, initHeap *Heap) {
 			v.heapVer++
 			nm := fmt.Sprintf("H%d_%s", v.heapVer, sanitize(k))
 			v.declHeap(nm, k)
-			v.emitFrame(k, nm, old, ei.known[k], ei.extOnly(k), oldClk, newClk, "")
+			v.emitFrame(k, nm, old, ei.known[k], ei.extOnly(k), oldClk, newClk, ei.restrict(k))
 			heap.m[k] = nm
 		}
 		heap.epoch = ne
